@@ -693,3 +693,33 @@ func CopyTree(src, dst string) error {
 
 // TilePath re-exports sunlight.TilePath for callers that only import realdir.
 func TilePath(t tlog.Tile) string { return sunlight.TilePath(t) }
+
+// ---------------------------------------------------------------- crafted checkpoints (health engine)
+
+// WitnessSigners returns the witness's two cosignature signers (Ed25519, ML-DSA-44).
+func (w *Witness) WitnessSigners() ([]note.Signer, error) {
+	s1, err := torchwood.NewCosignatureSigner(w.Name, w.Cfg.KeyEd25519)
+	if err != nil {
+		return nil, err
+	}
+	s2, err := torchwood.NewCosignatureSigner(w.Name, w.Cfg.KeyMLDSA44)
+	if err != nil {
+		return nil, err
+	}
+	return []note.Signer{s1, s2}, nil
+}
+
+// MirrorSigner returns the mirror cosignature signer.
+func (w *Witness) MirrorSigner() (note.Signer, error) {
+	return torchwood.NewCosignatureSigner(w.Mirror, w.Cfg.KeyMirror)
+}
+
+// OtherCosigner returns a cosignature signer with the given name and a key nobody publishes.
+func OtherCosigner(name string, seed uint64) (note.Signer, error) {
+	return torchwood.NewCosignatureSigner(name, ed25519.NewKeyFromSeed(NewRng(seed).Bytes(ed25519.SeedSize)))
+}
+
+// SignCheckpointNote signs a checkpoint text (origin, size, hash) with the given signers.
+func SignCheckpointNote(origin string, n int64, hash tlog.Hash, signers ...note.Signer) ([]byte, error) {
+	return note.Sign(&note.Note{Text: torchwood.Checkpoint{Origin: origin, Tree: tlog.Tree{N: n, Hash: hash}}.String()}, signers...)
+}
